@@ -1417,6 +1417,46 @@ example : runP RxState.unsynced [100, 99, 99, 50, 49, 49, 51, 50, 10] =
 example : specPlainState PSpec.init [100, 99, 99, 50, 49, 51] = { acc := [51, 49, 50] } := by
   decide
 
+/-! ## Unsecured sessions: only a repetition is ever answered 'duplicate' -/
+
+/-- On the specification with the restart rule: a history of pairwise distinct values, none of them
+accepted in the current epoch, is accepted entirely. -/
+theorem specPlainRun_distinct_all (cs : List Nat) : ∀ p : PSpec, cs.Nodup → (∀ c ∈ cs, c ∉ p.acc) →
+    specPlainRun p cs = cs.map (fun _ => true) := by
+  induction cs with
+  | nil => intro _ _ _; rfl
+  | cons c cs ih =>
+    intro p hnd hfresh
+    have hc : specPlainAccept p c = true := plain_in_window_once p c (hfresh c (by simp))
+    simp only [specPlainRun, hc, List.map_cons]
+    congr 1
+    rw [List.nodup_cons] at hnd
+    refine ih _ hnd.2 ?_
+    intro d hd hin
+    have hdc : d ≠ c := fun h => hnd.1 (h ▸ hd)
+    have hdp : d ∉ p.acc := hfresh d (by simp [hd])
+    unfold specPlainNext at hin
+    simp only [Bool.not_true, Bool.false_eq_true, ↓reduceIte] at hin
+    split at hin
+    · simp at hin; exact hdc hin
+    · split at hin
+      · simp at hin; exact hdc hin
+      · rcases List.mem_cons.mp hin with h | h
+        · exact hdc h
+        · exact hdp h
+
+/-- **An unsecured session never rejects a first-time value (model run)**: on a fresh unsecured
+session every history of pairwise distinct counter values is accepted in full, whatever the order,
+the gaps or the restarts in it - only a repetition can be answered 'duplicate'. -/
+theorem unsecured_distinct_all_accepted (cs : List Nat) (hnd : cs.Nodup) :
+    runP RxState.unsynced cs = cs.map (fun _ => true) := by
+  rw [unsecured_is_spec]
+  exact specPlainRun_distinct_all cs PSpec.init hnd (fun _ _ h => by simp [PSpec.init] at h)
+
+/-- Non-vacuity: forward jump, overtaken value, restart far below, value above the restart. -/
+example : runP RxState.unsynced [100, 200, 199, 3, 4, 150] =
+    [true, true, true, true, true, true] := by decide
+
 /-! ## Group store: how a tracking period ends -/
 
 theorem track_unique (es : List GEntry) (f n : Nat) (e v : GEntry) (hnd : (keys es).Nodup)
